@@ -1169,10 +1169,10 @@ template <class T> static void det_case (vp::Ctx& c)
     }
 }
 #define C05_DET_RULE "determinant (2/3/4), minorOf every (r,c), fastMinor random row/column selections, cofactor expansion along every row and column (vs exact det and vs determinant()), det(A^T), det(A*B)=det(A)det(B); 4x4 last-column zero masks drive the skip branches; "
-VP_RANDOM (det_f, 1500000, 30000000, "float: " C05_DET_RULE C05_RULE_COMMON) { det_case<float> (c); }
+VP_RANDOM (det_f, 1000000, 30000000, "float: " C05_DET_RULE C05_RULE_COMMON) { det_case<float> (c); }
 VP_LABELS (det_f, C05_LABELS)
 VP_REQUIRE_LABELS (det_f, "lattice", "sparse", "graded", "random", "exact_equality_demanded", "all_nonzero_distinct", "dim2", "dim3", "dim4", "affine_last_column", "det44_skip0", "det44_skip1", "det44_skip2", "det44_skip3", "det44_skip_all", "det44_skip_on_negative_zero")
-VP_RANDOM (det_d, 1500000, 30000000, "double: " C05_DET_RULE C05_RULE_COMMON) { det_case<double> (c); }
+VP_RANDOM (det_d, 1000000, 30000000, "double: " C05_DET_RULE C05_RULE_COMMON) { det_case<double> (c); }
 VP_LABELS (det_d, C05_LABELS)
 VP_REQUIRE_LABELS (det_d, "lattice", "sparse", "graded", "random", "exact_equality_demanded", "all_nonzero_distinct", "dim2", "dim3", "dim4", "affine_last_column", "det44_skip0", "det44_skip1", "det44_skip2", "det44_skip3", "det44_skip_all", "det44_skip_on_negative_zero")
 VP_FUZZABLE (det_f)
